@@ -22,7 +22,6 @@ var statsFull = regexp.MustCompile(`(?s)Database records:\s*(\d+).*Log records:\
 func statsReplay(e *env) error {
 	scratch := os.Getenv("VERIF_SCRATCH")
 	stride := e.argInt("stride", 1)
-	layout := "2006/01/02"
 	return e.parallelCases(func(idx int, raw json.RawMessage, rng *rand.Rand) error {
 		var c struct {
 			walkCase
@@ -38,6 +37,8 @@ func statsReplay(e *env) error {
 			return err
 		}
 		e.count(1, 0, 0)
+		// the headings are in the configured date format: the default one, or another given with --date-format
+		layout := []string{"2006/01/02", "2006-01-02", "02.01.2006"}[idx%3]
 		if c.Kind != "period" || c.BG.K != "none" || c.EG.K != "none" || c.BS.K != "none" || c.ES.K != "none" {
 			return nil // stats takes no period: one run per log
 		}
@@ -58,7 +59,7 @@ func statsReplay(e *env) error {
 		writeFile(filepath.Join(dir, "b.yaml"), bk.String())
 		writeFile(filepath.Join(dir, "l.yaml"), walkLog(c.Log, nil, layout))
 		out := &failWriter{limit: -1}
-		args := []string{"--today", dayStr(c.Today, layout), "-d", filepath.Join(dir, "b.yaml"), "-l", filepath.Join(dir, "l.yaml"), "stats"}
+		args := []string{"--date-format", layout, "--today", dayStr(c.Today, layout), "-d", filepath.Join(dir, "b.yaml"), "-l", filepath.Join(dir, "l.yaml"), "stats"}
 		res := runInProc(args, nil, out)
 		e.count(0, 1, 1)
 		rec := map[string]interface{}{"case": c, "stats_output": out.buf.String()}
